@@ -323,7 +323,7 @@ def run(sc, tape):
     nfail = sum(1 for e in http.log if e['ok'] is False)
     if nfail:
         faults['upstream_http_500'] = nfail
-    return {'violation': v, 'digest': C.digest_of(sc['service'], sc['backend'], sc['meta_size'], sc['refresh'], sc['ops'], sc['coords']),
+    return {'violation': v, 'digest': C.digest_of(sc['service'], sc['backend'], sc['meta_size'], sc['refresh'], sc['ops'], sc['coords'], [(e['gen'], e['ok'], e['url']) for e in http.log], w.fs.op_count, round(clock.now, 6)),
             'nontrivial': judged[0] > 0 or fills[0] > 0, 'steps': len(sc['ops']), 'sim_time': clock.now - 1.7e9,
             'faults': faults, 'probes': probes,
             'sample': {'deployment': name, 'ops': sc['ops'][:14], 'upstream_calls': len(http.log)}}
